@@ -309,7 +309,7 @@ InWindow(s, o) ==
 
 Reloads(s) == Cardinality({i \in K : s.rl[i] # 0})
 
-OpEnabled(s, o, maxRej, windows, maxReload, maxLag) ==
+OpEnabledLag(s, o, maxRej, windows, maxReload, maxLag) ==
     /\ ~Final(s)
     /\ o.op = "lag" => (o.s \in Honest /\ ~s.skip[o.s] /\ s.lags < maxLag /\ s.h < 3 * PhaseLen)
     /\ o.op = "reload" => (o.s \in Honest /\ ~s.kp[o.s].done /\ s.rl[o.s] = 0 /\ Reloads(s) < maxReload)
@@ -318,6 +318,9 @@ OpEnabled(s, o, maxRej, windows, maxReload, maxLag) ==
     /\ o.op \in {"bcommit", "beval", "bacc", "bapol"} => o.s \in Byz
     /\ windows => InWindow(s, o)
     /\ WouldReject(s, o) => s.rej < maxRej
+
+(* without "lag" ops (the signature other modules use) *)
+OpEnabled(s, o, maxRej, windows, maxReload) == OpEnabledLag(s, o, maxRej, windows, maxReload, 0)
 
 NoMsg == Msg(Blank, 0, BlankVals)
 
